@@ -484,6 +484,22 @@ func roundTo(kind string, r *big.Rat) *big.Rat {
 	return r
 }
 
+// roundToLong models NormalizeNumber for a long-float partner: a fixnum or ratio is converted through a
+// float64, a bignum exactly.
+func roundToLong(x refnum.Num) *big.Rat {
+	if x.Kind == "int" && !x.R.Num().IsInt64() {
+		return x.R
+	}
+	if x.Kind == "single" || x.Kind == "double" {
+		return x.R
+	}
+	f, _ := x.R.Float64()
+	if math.IsInf(f, 0) {
+		return nil
+	}
+	return new(big.Rat).SetFloat64(f)
+}
+
 func isFloat(n refnum.Num) bool { return in(n.Kind, "single", "double", "long") }
 
 // lossyPair: a rational and a float whose comparison changes when the rational is first rounded
@@ -497,7 +513,11 @@ func lossyPair(a, b refnum.Num) bool {
 		f, x = b, a
 	}
 	if f.Kind == "long" {
-		return false
+		rx := roundToLong(x)
+		if rx == nil {
+			return x.R.Sign() != x.R.Cmp(f.R)
+		}
+		return rx.Cmp(f.R) != x.R.Cmp(f.R)
 	}
 	rx := roundTo(f.Kind, x.R)
 	if rx == nil { // rounds to an infinity: compares like its sign against any finite float
@@ -725,6 +745,12 @@ func genReal(rt *rapid.T, label string) string {
 	base := genRational(rt, label+"f", 3)
 	r, _ := new(big.Rat).SetString(base)
 	fs := refnum.FloatsNear(r)
+	if r.IsInt() {
+		// long floats with integer values at and beside r (exactly representable with 256 bits of precision)
+		for _, d := range []int64{-1, 0, 1} {
+			fs = append(fs, "l:"+new(big.Int).Add(r.Num(), big.NewInt(d)).String())
+		}
+	}
 	if len(fs) == 0 {
 		return base
 	}
@@ -922,6 +948,7 @@ func TestC05(t *testing.T) {
 		for _, f := range refnum.FloatsNear(new(big.Rat).SetInt(g)) {
 			addReal(f)
 		}
+		addReal("l:" + g.String())
 	}
 	for _, r := range []*big.Rat{big.NewRat(1, 3), big.NewRat(1, 10), big.NewRat(-1, 3)} {
 		addReal(r.RatString())
